@@ -12,7 +12,12 @@ Inductive oobs :=
        avgFlying after = am * 2^ae; maxFlight() just before = cm * 2^ce *)
 | OR (done : bool) (fl am ae : Z)
     (* Pass / Fail: a promise existed; flying after; avgFlying after *)
-| OSkip.
+| OSkip
+| ORD (done : bool) (fl am ae : Z)
+    (* Pass / Fail started while another goroutine holds avgFlyingLock: past its decrement (flying after),
+       its sample for the moving average still to come *)
+| OFold.
+    (* the lock is given back: the waiting resolutions fold their samples in, in SOME order *)
     (* a place-holder that keeps the operation indices aligned (forced-schedule cases: the
        operations that start an Allow or let a dropper return are not Allow / Pass / Fail events) *)
 
@@ -91,7 +96,7 @@ Fixpoint agree_loop (wb : bool) (s : state) (l : list (op * oobs)) : bool :=
       match ob with
       | OA shed _ _ _ _ _ _ _ => negb shed && is_grant r
       | OR done _ _ _ => eqb done (is_done r)
-      | OSkip => false
+      | OSkip | ORD _ _ _ _ | OFold => false
       end && agree_loop wb s' l'
   end.
 
@@ -162,7 +167,7 @@ Fixpoint monotone (last : Z) (l : list (op * oobs)) : bool :=
     end
   end.
 
-Definition check_allow (excl wb : bool) (c : config) (t0 : Z) (mono : bool) (a : acc)
+Definition check_allow (excl wb : bool) (c : config) (t0 : Z) (mono : bool) (a : acc) (avglo : Q)
            (now c1 c2 : Z) (shed : bool) (fl cm ce : Z) : bool :=
   let th := cthreshold c in
   let raw := ref_raw c (ref_peak_min c t0 now (apass a)) in
@@ -180,7 +185,7 @@ Definition check_allow (excl wb : bool) (c : config) (t0 : Z) (mono : bool) (a :
    else true)
   (* shed when saturated; [excl]: with the hypothesis that excludes the NaN corner
      cpuThreshold = cpuMax = CPU reading (known finding nan-factor-threshold-eq-cpumax) *)
-  && (if mono && over && q_ltb (cap * slack)%Q fb && q_ltb (cap * slack)%Q (aavg a)
+  && (if mono && over && q_ltb (cap * slack)%Q fb && q_ltb (cap * slack)%Q avglo
          && negb (excl && (th =? cpuMax) && (c2 =? cpuMax))
       then shed else true)
   (* the capacity estimate the code computed just before this Allow is the property's: peak per-bucket
@@ -190,23 +195,57 @@ Definition check_allow (excl wb : bool) (c : config) (t0 : Z) (mono : bool) (a :
   (* conservation *)
   && (fl =? (if shed then afl a else afl a + 1)).
 
-Fixpoint prop_loop (excl wb : bool) (c : config) (t0 : Z) (mono : bool) (a : acc) (l : list (op * oobs)) : bool :=
+(* [aavg a] / [lo]: the largest / smallest moving average the history permits (they differ only after
+   resolutions whose samples were folded in while the lock was contended: the order is the lock's);
+   [pend]: the samples still to come.  "Shed only if" is judged with the largest, "does shed" with the smallest. *)
+Fixpoint insert_z (x : Z) (l : list Z) : list Z :=
+  match l with [] => [x] | y :: l' => if x <=? y then x :: l else y :: insert_z x l' end.
+Definition sort_z (l : list Z) : list Z := fold_right insert_z [] l.
+
+Fixpoint prop_loop (excl wb : bool) (c : config) (t0 : Z) (mono : bool) (a : acc) (lo : Q) (pend : list Z)
+         (l : list (op * oobs)) : bool :=
   match l with
   | [] => true
   | (o, ob) :: l' =>
     match o, ob with
     | _, OSkip =>
       prop_loop excl wb c t0 mono
-           (mkAcc (aidx a + 1) (aadm a) (apass a) (afl a) (aovers a) (ashed a) (aavg a) (alast a)) l'
+           (mkAcc (aidx a + 1) (aadm a) (apass a) (afl a) (aovers a) (ashed a) (aavg a) (alast a)) lo pend l'
+    | _, OFold =>
+      (* largest: small samples first; smallest: large samples first (the last sample weighs most) *)
+      let up := sort_z pend in
+      prop_loop excl wb c t0 mono
+           (mkAcc (aidx a + 1) (aadm a) (apass a) (afl a) (aovers a) (ashed a)
+                  (fold_left ref_avg up (aavg a)) (alast a))
+           (fold_left ref_avg (rev up) lo) [] l'
+    | OPass id now, ORD done fl am ae =>
+      let st := prom_start id (aadm a) in
+      let ok := match st with Some _ => done | None => negb done end in
+      let fl' := if done then afl a - 1 else afl a in
+      ok && (fl =? fl')
+      && prop_loop excl wb c t0 mono
+           (mkAcc (aidx a + 1) (aadm a)
+                  (match st with
+                   | Some start => if done then (grid t0 (bucket_duration c) now, ceil_ms (now - start)) :: apass a else apass a
+                   | None => apass a end)
+                  fl' (aovers a) (ashed a) (aavg a) now) lo (if done then fl' :: pend else pend) l'
+    | OFail id, ORD done fl am ae =>
+      let st := prom_start id (aadm a) in
+      let ok := match st with Some _ => done | None => negb done end in
+      let fl' := if done then afl a - 1 else afl a in
+      ok && (fl =? fl')
+      && prop_loop excl wb c t0 mono
+           (mkAcc (aidx a + 1) (aadm a) (apass a) fl' (aovers a) (ashed a) (aavg a) (alast a))
+           lo (if done then fl' :: pend else pend) l'
     | OAllow now c1 c2, OA shed fl _ _ am ae cm ce =>
-      check_allow excl wb c t0 mono a now c1 c2 shed fl cm ce
+      check_allow excl wb c t0 mono a lo now c1 c2 shed fl cm ce
       && prop_loop excl wb c t0 mono
            (mkAcc (aidx a + 1)
                   (if shed then aadm a else (aidx a, now) :: aadm a)
                   (apass a)
                   (if shed then afl a else afl a + 1)
                   (if cthreshold c <=? c1 then now :: aovers a else aovers a)
-                  (ashed a || shed) (aavg a) now) l'
+                  (ashed a || shed) (aavg a) now) lo pend l'
     | OPass id now, OR done fl am ae =>
       let st := prom_start id (aadm a) in
       let ok := match st with Some _ => done | None => negb done end in
@@ -217,14 +256,16 @@ Fixpoint prop_loop (excl wb : bool) (c : config) (t0 : Z) (mono : bool) (a : acc
                   (match st with
                    | Some start => if done then (grid t0 (bucket_duration c) now, ceil_ms (now - start)) :: apass a else apass a
                    | None => apass a end)
-                  fl' (aovers a) (ashed a) (if done then ref_avg (aavg a) fl' else aavg a) now) l'
+                  fl' (aovers a) (ashed a) (if done then ref_avg (aavg a) fl' else aavg a) now)
+           (if done then ref_avg lo fl' else lo) pend l'
     | OFail id, OR done fl am ae =>
       let st := prom_start id (aadm a) in
       let ok := match st with Some _ => done | None => negb done end in
       let fl' := if done then afl a - 1 else afl a in
       ok && (fl =? fl')
       && prop_loop excl wb c t0 mono
-           (mkAcc (aidx a + 1) (aadm a) (apass a) fl' (aovers a) (ashed a) (if done then ref_avg (aavg a) fl' else aavg a) (alast a)) l'
+           (mkAcc (aidx a + 1) (aadm a) (apass a) fl' (aovers a) (ashed a) (if done then ref_avg (aavg a) fl' else aavg a) (alast a))
+           (if done then ref_avg lo fl' else lo) pend l'
     | _, _ => false
     end
   end.
@@ -237,7 +278,7 @@ Definition prop_gen (excl : bool) (c : scase) : bool :=
     if cnop c then never_shed (cops c)
     else csame c
          && prop_loop excl (cwb c) (ccfg c) (ct0 c) (monotone (ct0 c) (cops c))
-                      (mkAcc 0 [] [] 0 [] false 0%Q (ct0 c)) (cops c)
+                      (mkAcc 0 [] [] 0 [] false 0%Q (ct0 c)) 0%Q [] (cops c)
   else
     (* built after load.Disable(): whatever was built, it never sheds (that a nopShedder was built is
        compared by [s_agrees]) *)
@@ -467,7 +508,11 @@ Definition wr_prop (excl : bool) (c : config) (t0 : Z) (l : list (wrop * wrobs))
    [KAllow] or of the [KDecide]. *)
 Inductive cop :=
 | KAllow (now c1 c2 : Z) | KPass (id now : Z) | KFail (id : Z)
-| KEnter | KDecide (tid now c1 c2 : Z) | KFinish (tid : Z).
+| KEnter | KDecide (tid now c1 c2 : Z) | KFinish (tid : Z)
+| KHold | KRelease.
+  (* [KHold]: another goroutine takes avgFlyingLock; the [KPass] / [KFail] that follow run on their own
+     goroutines, get past their decrement and wait for the lock; [KRelease]: the lock is given back and
+     they fold their samples in, in the order in which they happen to get the lock *)
 Inductive cobs :=
 | KA (shed : bool) (fl mp rt am ae cm ce : Z)   (* KAllow; KDecide: shed = parked at the drop log line *)
 | KR (done : bool) (fl am ae : Z)                (* KPass / KFail *)
@@ -497,7 +542,7 @@ Definition k_call (ops : list cop) (i : nat) (o : cop) : call :=
               end
   | KPass id now => CPass (k_thread ops id) now
   | KFail id => CFail (k_thread ops id)
-  | KDecide _ _ _ _ | KFinish _ => CFail (length ops)      (* no such thread: never moves *)
+  | KDecide _ _ _ _ | KFinish _ | KHold | KRelease => CFail (length ops)      (* no such thread: never moves *)
   end.
 
 Fixpoint k_calls (ops : list cop) (i : nat) (l : list cop) : list call :=
@@ -523,7 +568,18 @@ Definition res_is (t : thread) (r : res) : bool :=
   | _, _ => false
   end.
 
-Fixpoint k_agree (m : machine) (i : nat) (l : list (cop * cobs)) : bool :=
+(* all orders in which the waiting resolutions can get the lock *)
+Fixpoint inserts {A} (x : A) (l : list A) : list (list A) :=
+  match l with
+  | [] => [[x]]
+  | y :: l' => (x :: l) :: map (cons y) (inserts x l')
+  end.
+Fixpoint perms {A} (l : list A) : list (list A) :=
+  match l with [] => [[]] | x :: l' => concat (map (inserts x) (perms l')) end.
+
+(* [pend]: Some ts while the lock is held by the executor - the resolver threads that are past their
+   decrement, waiting for the lock *)
+Fixpoint k_agree (m : machine) (pend : option (list nat)) (i : nat) (l : list (cop * cobs)) : bool :=
   match l with
   | [] => true
   | (o, ob) :: l' =>
@@ -535,7 +591,7 @@ Fixpoint k_agree (m : machine) (i : nat) (l : list (cop * cobs)) : bool :=
       if h && near s1 now c2 && negb (eqb shed (res_is (thr_at m' i) RShed)) then true   (* near-tie: not compared further *)
       else eqb shed (res_is (thr_at m' i) RShed) && (pc_done <=? tpc (thr_at m' i))%nat
            && (mp =? max_pass sh now) && (rt =? min_rt sh now) && rel_close (max_flight sh now) cm ce
-           && (fl =? flying (fst m')) && avg_close (avgFlying (fst m')) am ae && k_agree m' (S i) l'
+           && (fl =? flying (fst m')) && avg_close (avgFlying (fst m')) am ae && k_agree m' pend (S i) l'
     | KDecide tid now c1 c2, KA shed fl mp rt am ae cm ce =>
       let t := if tid <? 0 then length (snd m) else Z.to_nat tid in
       let m' := run_seg 14 m t true in
@@ -544,18 +600,41 @@ Fixpoint k_agree (m : machine) (i : nat) (l : list (cop * cobs)) : bool :=
       if h && near s1 now c2 && negb (eqb shed parked) then true
       else eqb shed parked && (parked || res_is (thr_at m' t) RAdmit)
            && (mp =? max_pass sh now) && (rt =? min_rt sh now) && rel_close (max_flight sh now) cm ce
-           && (fl =? flying (fst m')) && avg_close (avgFlying (fst m')) am ae && k_agree m' (S i) l'
+           && (fl =? flying (fst m')) && avg_close (avgFlying (fst m')) am ae && k_agree m' pend (S i) l'
     | KEnter, KN ok fl am ae =>
-      ok && (fl =? flying sh) && avg_close (avgFlying sh) am ae && k_agree m (S i) l'
+      ok && (fl =? flying sh) && avg_close (avgFlying sh) am ae && k_agree m pend (S i) l'
     | KFinish tid, KN ok fl am ae =>
       let t := if tid <? 0 then length (snd m) else Z.to_nat tid in
       let m' := run_seg 14 m t false in
       eqb ok (res_is (thr_at m' t) RShed)
-      && (fl =? flying (fst m')) && avg_close (avgFlying (fst m')) am ae && k_agree m' (S i) l'
+      && (fl =? flying (fst m')) && avg_close (avgFlying (fst m')) am ae && k_agree m' pend (S i) l'
     | KPass _ _, KR done fl am ae | KFail _, KR done fl am ae =>
-      let m' := run_seg 14 m i false in
-      eqb done (res_is (thr_at m' i) RDone)
-      && (fl =? flying (fst m')) && avg_close (avgFlying (fst m')) am ae && k_agree m' (S i) l'
+      match pend with
+      | None =>
+        let m' := run_seg 14 m i false in
+        eqb done (res_is (thr_at m' i) RDone)
+        && (fl =? flying (fst m')) && avg_close (avgFlying (fst m')) am ae && k_agree m' pend (S i) l'
+      | Some ts =>
+        (* one action: the atomic decrement; then the thread waits for the lock *)
+        let m' := cstep m i in
+        let moved := (tpc (thr_at m' i) =? 1)%nat in
+        eqb done moved
+        && (fl =? flying (fst m')) && avg_close (avgFlying (fst m')) am ae
+        && k_agree m' (Some (if moved then ts ++ [i] else ts)) (S i) l'
+      end
+    | KHold, KN ok fl am ae =>
+      ok && (fl =? flying sh) && avg_close (avgFlying sh) am ae
+      && k_agree m (Some match pend with Some ts => ts | None => [] end) (S i) l'
+    | KRelease, KN ok fl am ae =>
+      let ts := match pend with Some ts => ts | None => [] end in
+      (* some order of the waiting threads reproduces the average that was observed *)
+      let ms := map (fun p => fold_left (fun m t => run_seg 14 m t false) p m) (perms ts) in
+      match find (fun m' => avg_close (avgFlying (fst m')) am ae) ms with
+      | Some m' =>
+        ok && (fl =? flying (fst m')) && forallb (fun t => res_is (thr_at m' t) RDone) ts
+        && k_agree m' None (S i) l'
+      | None => false
+      end
     | _, _ => false
     end
   end.
@@ -563,7 +642,7 @@ Fixpoint k_agree (m : machine) (i : nat) (l : list (cop * cobs)) : bool :=
 Definition k_agrees (c : config) (t0 : Z) (ws : Z * Z) (l : list (cop * cobs)) : bool :=
   let ops := map fst l in
   rel_close (window_scale c) (fst ws) (snd ws)
-  && k_agree (start c t0 (k_calls ops 0 ops)) 0 l.
+  && k_agree (start c t0 (k_calls ops 0 ops)) None 0 l.
 
 (* -- prop: the property's own counts.  Under a forced schedule every call takes its decision in one
    uninterrupted segment ([KAllow], [KDecide]); ordered by these segments the calls form a history of
@@ -574,29 +653,33 @@ Definition k_agrees (c : config) (t0 : Z) (ws : Z * Z) (l : list (cop * cobs)) :
    threshold NOW). -- *)
 (* in-flight = promises handed out - promises resolved, counted from the verdicts alone; the shedder's own
    counter (compared with the interleaving model in [k_agree]) plays no part in the judgement *)
-Fixpoint k_core (afl : Z) (l : list (cop * cobs)) : option (list (op * oobs)) :=
+Fixpoint k_core (held : bool) (afl : Z) (l : list (cop * cobs)) : option (list (op * oobs)) :=
   match l with
   | [] => Some []
   | x :: l' =>
-    let '(afl', y) :=
+    let '(held', afl', y) :=
       match x with
       | (KAllow now c1 c2, KA shed _ mp rt am ae cm ce) | (KDecide _ now c1 c2, KA shed _ mp rt am ae cm ce) =>
-        let a := if shed then afl else afl + 1 in (a, Some (OAllow now c1 c2, OA shed a mp rt am ae cm ce))
+        let a := if shed then afl else afl + 1 in (held, a, Some (OAllow now c1 c2, OA shed a mp rt am ae cm ce))
       | (KPass id now, KR done _ am ae) =>
-        let a := if done then afl - 1 else afl in (a, Some (OPass id now, OR done a am ae))
+        let a := if done then afl - 1 else afl in
+        (held, a, Some (OPass id now, if held then ORD done a am ae else OR done a am ae))
       | (KFail id, KR done _ am ae) =>
-        let a := if done then afl - 1 else afl in (a, Some (OFail id, OR done a am ae))
-      | (KEnter, KN _ _ _ _) | (KFinish _, KN _ _ _ _) => (afl, Some (OFail (-1), OSkip))
-      | _ => (afl, None)
+        let a := if done then afl - 1 else afl in
+        (held, a, Some (OFail id, if held then ORD done a am ae else OR done a am ae))
+      | (KEnter, KN _ _ _ _) | (KFinish _, KN _ _ _ _) => (held, afl, Some (OFail (-1), OSkip))
+      | (KHold, KN _ _ _ _) => (true, afl, Some (OFail (-1), OSkip))
+      | (KRelease, KN _ _ _ _) => (false, afl, Some (OFail (-1), OFold))
+      | _ => (held, afl, None)
       end in
-    match y, k_core afl' l' with
+    match y, k_core held' afl' l' with
     | Some z, Some r => Some (z :: r)
     | _, _ => None
     end
   end.
 
 Definition k_prop (excl : bool) (c : config) (t0 : Z) (ws : Z * Z) (l : list (cop * cobs)) : bool :=
-  match k_core 0 l with
+  match k_core false 0 l with
   | Some ops => prop_gen excl (mkCase c t0 true false true ws ops)
   | None => false
   end.
